@@ -6,12 +6,9 @@ use std::str;
 verus! {
 
 //@@ include io_prelude
+//@@ include errors
 //@@ include framing_spec
 //@@ include framing_code
 }
-impl From<InvalidResponseKind> for io::Error {
-    fn from(kind: InvalidResponseKind) -> io::Error {
-        io::Error::new(io::ErrorKind::Other, "x")
-    }
-}
+//@@ include errors_tail
 fn main(){}
